@@ -60,6 +60,20 @@ THPeligible:           0
 VmFlags: rd wr mr mw me gd ac
 """
 
+# a mapped file that was unlinked since: psutil stats the literal name to decide whether " (deleted)" is part of it
+SMAPS_DELETED_MAPPING = b"""7f10a0000000-7f10a0002000 r--p 00000000 fe:00 320999                     /vmapped/libgone.so (deleted)
+Size:                  8 kB
+Rss:                   4 kB
+Pss:                   4 kB
+Shared_Clean:          0 kB
+Shared_Dirty:          0 kB
+Private_Clean:         4 kB
+Private_Dirty:         0 kB
+Referenced:            4 kB
+Anonymous:             0 kB
+Swap:                  0 kB
+"""
+
 SMAPS_ROLLUP = b"""55c69524c000-7ffdcb81b000 ---p 00000000 00:00 0                          [rollup]
 Rss:                  28 kB
 Pss:                  26 kB
@@ -120,7 +134,7 @@ def rich_table(zombie=False, btime=1_700_000_000, kthread=False):
     p.ioprio = (2, 4)
     p.affinity = [0, 1, 2]
     p.rlimits = {7: (1024, 4096)}
-    p.smaps = SMAPS
+    p.smaps = SMAPS + SMAPS_DELETED_MAPPING
     p.smaps_rollup = SMAPS_ROLLUP
     p.fds = {
         0: dict(target="/dev/null", pos=0, flags=0o100002),
